@@ -247,6 +247,20 @@ theorem ok_jumpIfFalse {t : Nat} (hw : WS P fin A) (hn : stateAt P fin (pc + 1) 
       · exact hn
       · exact ht⟩, by intro o h; cases h⟩
 
+theorem ok_jumpIfFalseOrPop {t : Nat} (hw : WS P fin A) (hn : stateAt P fin (pc + 1) = some A)
+    (ht : stateAt P fin t = some A) : InstrOk P fin pc (.jumpIfFalseOrPop t) A :=
+  ⟨hw, ⟨[(pc + 1, A), (t, A)], rfl, by
+      intro x hx; simp at hx; rcases hx with rfl | rfl
+      · exact hn
+      · exact ht⟩, by intro o h; cases h⟩
+
+theorem ok_jumpIfTrueOrPop {t : Nat} (hw : WS P fin A) (hn : stateAt P fin (pc + 1) = some A)
+    (ht : stateAt P fin t = some A) : InstrOk P fin pc (.jumpIfTrueOrPop t) A :=
+  ⟨hw, ⟨[(pc + 1, A), (t, A)], rfl, by
+      intro x hx; simp at hx; rcases hx with rfl | rfl
+      · exact hn
+      · exact ht⟩, by intro o h; cases h⟩
+
 theorem ok_ret (P : ACode) (fin : AbsState) (pc : Nat) : InstrOk P fin pc .ret AbsState.init :=
   ⟨WS_init P fin, ⟨[], by simp [edges], by intro x hx; simp at hx⟩, by intro o h; cases h⟩
 
@@ -268,6 +282,7 @@ theorem comp_length (s : Stmt) : ∀ (Γ : Ctx) (b : Nat) (σ : AbsState),
   | skip => intros; rfl
   | seq a c iha ihc => intro Γ b σ; simp [comp, size, iha, ihc]
   | simple is => intro Γ b σ; simp [comp, size]
+  | flat is => intro Γ b σ; simp [comp, size]
   | ifS n t iht => intro Γ b σ; simp [comp, size, others_length, iht]; omega
   | ifElse n t e iht ihe => intro Γ b σ; simp [comp, size, others_length, iht, ihe]; omega
   | forS v r npre nt body ihb => intro Γ b σ; simp [comp, size, others_length, ihb]; omega
@@ -318,6 +333,41 @@ theorem typed_others {P : ACode} {fin : AbsState} {b n : Nat} {A : AbsState}
     Typed P fin b (others n A) := by
   rw [others_eq] at hE ⊢
   exact typed_map_simple _ (by simp [simpleInstr]) hE (by simpa using hn) hw
+
+/-- an expression: every instruction and every jump target inside it carries the same state -/
+theorem typed_flat {P : ACode} {fin : AbsState} {b : Nat} {A : AbsState} (l : List Instr)
+    (hl : l.all (flatInstr l.length) = true) (hE : Embeds P b (l.map (fun i => (shift b i, A))))
+    (hn : stateAt P fin (b + l.length) = some A) (hw : WS P fin A) :
+    Typed P fin b (l.map (fun i => (shift b i, A))) := by
+  have hst : ∀ j, j ≤ l.length → stateAt P fin (b + j) = some A := by
+    intro j hj
+    rcases Nat.lt_or_ge j l.length with h1 | h1
+    · have := hE j (shift b l[j], A) (by rw [List.getElem?_map, List.getElem?_eq_getElem h1]; rfl)
+      exact stateAt_of_get this
+    · have e : j = l.length := by omega
+      rw [e]; exact hn
+  intro k i A' h
+  have hk : k < l.length := by
+    rcases Nat.lt_or_ge k l.length with h' | h'
+    · exact h'
+    · rw [List.getElem?_eq_none_iff.mpr (by simpa using h')] at h; cases h
+  rw [List.getElem?_map, List.getElem?_eq_getElem hk] at h
+  simp only [Option.map_some, Option.some.injEq, Prod.mk.injEq] at h
+  obtain ⟨rfl, rfl⟩ := h
+  have hs : flatInstr l.length l[k] = true := by
+    rw [List.all_eq_true] at hl
+    exact hl _ (List.getElem_mem hk)
+  have hnext : stateAt P fin (b + k + 1) = some A := by
+    have := hst (k + 1) (by omega)
+    rw [← Nat.add_assoc] at this; exact this
+  cases hi : l[k] <;> rw [hi] at hs <;> simp [flatInstr] at hs <;> simp only [shift]
+  · exact ok_other hw hnext
+  · exact ok_jump hw (hst _ hs)
+  · exact ok_jumpIfFalse hw hnext (hst _ hs)
+  · exact ok_jumpIfFalseOrPop hw hnext (hst _ hs)
+  · exact ok_jumpIfTrueOrPop hw hnext (hst _ hs)
+  · exact ok_fastRecurse hw hnext
+  · exact ok_callFunction hw hnext
 
 theorem others_head {P : ACode} {fin : AbsState} {b n : Nat} {A : AbsState}
     (hE : Embeds P b (others n A)) (hn : stateAt P fin (b + n) = some A) :
@@ -436,6 +486,11 @@ theorem comp_head (s : Stmt) : ∀ (Γ : Ctx) (b : Nat) (σ : AbsState) (P : ACo
     cases is with
     | nil => simpa [size] using hn
     | cons i rest => exact head_cons (by simpa [comp] using hE)
+  | flat is =>
+    intro Γ b σ P fin hE hn
+    cases is with
+    | nil => simpa [size] using hn
+    | cons i rest => exact head_cons (by simpa [comp] using hE)
   | ifS n t _ => intro Γ b σ P fin hE _; exact head_others_cons (by simpa [comp] using hE)
   | ifElse n t e _ _ =>
     intro Γ b σ P fin hE _
@@ -507,6 +562,11 @@ theorem comp_typed (s : Stmt) : ∀ (Γ : Ctx) (b : Nat) (σ : AbsState) (inLoop
     simp only [ok] at hok
     simp only [comp] at hE ⊢
     exact typed_map_simple is hok hE (by simpa [size] using hn) hw
+  | flat is =>
+    intro Γ b σ inLoop P fin hok hE hn hw _
+    simp only [ok] at hok
+    simp only [comp] at hE ⊢
+    exact typed_flat is hok hE (by simpa [size] using hn) hw
   | ifS n t iht =>
     intro Γ b σ inLoop P fin hok hE hn hw hi
     simp only [ok] at hok
